@@ -18,6 +18,7 @@ import random
 import sys
 import time
 import traceback
+from pyvc.sym import Undecided
 
 VERIF = os.path.dirname(os.path.dirname(os.path.abspath(__file__)))
 REPO = os.environ.get("PPCI_REPO", "/repo")
@@ -159,7 +160,8 @@ def _short(v):
 
 
 INT_SAMPLES = [0, 1, -1, 2, 5, 63, 64, -64, -65, 127, 128, 129, 255, 256, -128, -129, 300, 624485, -624485,
-               16383, 16384, 2**31 - 1, 2**31, -2**31, 2**32 - 1, 2**32, 2**63 - 1, 2**63, -2**63, 2**64 + 5]
+               16383, 16384, 2**31 - 1, 2**31, -2**31, 2**32 - 1, 2**32, 2**63 - 1, 2**63, -2**63, 2**64 + 5,
+               2**126, -2**126, -2**127, 2**127 - 1, -2**128 - 1, 2**200 + 7, -2**200 - 7]
 INT_SAMPLES_WIDE = sorted(set(INT_SAMPLES + [s * (2**k) + d for k in range(0, 72) for d in (-1, 0, 1) for s in (1, -1)]))
 
 
@@ -289,6 +291,12 @@ def main(argv=None):
         for inp in cand:
             try:
                 ok, detail = replay_native(ct, g, inp)
+            except Undecided as e:
+                # the contract cannot judge this code on this input (e.g. a recording stub met state it does not model):
+                # undecided, never a violation
+                if not any(str(e) in u for u in undecided):
+                    undecided.append("%s%s: native evaluation undecided: %s" % (ct.label, tag, e))
+                continue
             except Exception as e:
                 errors.append("%s%s: native sample crashed: %r" % (ct.label, tag, e))
                 continue
@@ -617,4 +625,12 @@ def replay_file(path):
 
 
 if __name__ == "__main__":
-    sys.exit(main())
+    try:
+        _rc = main()
+    except SystemExit:
+        raise
+    except BaseException as _e:      # a crash of the checker is exit 3, never exit 1 (which means: violation)
+        traceback.print_exc()
+        print("CHECKER-ERROR: the checker itself crashed: %r" % (_e,))
+        _rc = 3
+    sys.exit(_rc)
